@@ -131,6 +131,27 @@ fn ilv_oracle() -> Oracle {
         for f in accounting_violations(&run.obs_end) {
             out.push(Finding::new("accounting", "sweep:accounting-broken", f));
         }
+        // weight reclaimed: the total equals the sum over the keys still held of their last explicitly requested weight
+        {
+            let mut want: i64 = 0;
+            let mut known = true;
+            for e in run.obs_end.store.iter() {
+                let last = run.calls.iter().filter(|c| c.op.key() == Some(e.0) && c.op.is_write()).filter(|c| matches!(run.status_of(c.thread, c.idx), Some(crate::cache::command::CommandStatus::Accepted))).max_by_key(|c| c.inv);
+                match last.map(|c| &c.op) {
+                    Some(Op::Put { w: Some(w), .. }) | Some(Op::Upsert { w: Some(w), .. }) => want += *w,
+                    _ => known = false,
+                }
+            }
+            let concurrent_writers = {
+                let mut ks: Vec<(K, usize)> = run.calls.iter().filter(|c| c.thread < PHASE_INIT && c.op.is_write()).filter_map(|c| c.op.key().map(|k| (k, c.thread))).collect();
+                ks.sort();
+                ks.dedup();
+                ks.windows(2).any(|w| w[0].0 == w[1].0)
+            };
+            if known && !concurrent_writers && run.obs_end.weight_used != want {
+                out.push(Finding::new("weight-not-reclaimed", "sweep:total-differs-from-held-keys", format!("the keys still held were last given weights summing to {} but the total weight used is {}", want, run.obs_end.weight_used)));
+            }
+        }
         // quiescent end state: nothing is held whose expiry had passed at the instant of a sweep of its shard
         let shards = run.program.setup.shards as u64;
         let ticks: Vec<&Call> = run.calls.iter().filter(|c| matches!(c.op, Op::Tick | Op::TickWait)).collect();
@@ -170,6 +191,9 @@ fn ilv_programs() -> Vec<Program> {
     v.push(mk("k:upsert(add ttl 9s);await;get || {clock+3s;tick} sweeping b", 1000, vec![put(1, 30), put_ttl(2, 30, 1000)], vec![vec![ups(1, true, Some(30), Some(9000), false), Op::Await { call: 0 }, get(1)], vec![adv(3000), Op::Tick]]));
     // the worker executes TTL commands while the sweep runs
     v.push(mk("put_ttl(c);delete(b) || {tick} (clock already past b's expiry)", 1000, vec![put(1, 30), put_ttl(2, 30, 1000), adv(3000)], vec![vec![put_ttl(3, 30, 2000), del(2)], vec![Op::Tick]]));
+    // weight updates racing the sweep: of the swept key itself, and of another key
+    v.push(mk("upsert(a,w) || {tick} sweeping a (expired)", 1000, vec![put_ttl(1, 30, 1000), put(2, 30), adv(3000)], vec![vec![ups(1, true, Some(20), None, false)], vec![Op::Tick]]));
+    v.push(mk("upsert(b,w) || {tick} sweeping a (expired)", 1000, vec![put_ttl(1, 30, 1000), put(2, 30), adv(3000)], vec![vec![ups(2, true, Some(20), None, false)], vec![Op::Tick]]));
     // eviction racing the sweep of the same key
     {
         let mut p = mk("evicting-put(c) || {tick} sweeping a", 4, vec![put_ttl(1, 2, 1000), put(2, 1), adv(3000)], vec![vec![put(3, 3)], vec![Op::Tick]]);
